@@ -477,10 +477,12 @@ impl<'s> ProguardMapper<'s> {
 
     /// Remaps a complete Java StackTrace.
     pub fn remap_stacktrace_typed<'a>(&'a self, trace: &StackTrace<'a>) -> StackTrace<'a> {
+        // keep the original throwable if its class is not part of the mapping
+        // (e.g. platform exceptions), like unmapped frames are kept below.
         let exception = trace
             .exception
             .as_ref()
-            .and_then(|t| self.remap_throwable(t));
+            .map(|t| self.remap_throwable(t).unwrap_or_else(|| t.clone()));
 
         let frames =
             trace
